@@ -171,7 +171,7 @@ def run(ctx):
 
     # ---------------------------------------------------------------- unclustered sweep
     covers = cover_cfgs(rng)
-    n_files = 80 if quick else 2400
+    n_files = 160 if quick else 2400
     small_depths = list(range(0, 13))
     depth_pool = list(range(0, 61))
     dens_pool = [("binomial", None)] + [("beta-binomial", p) for p in PRECISIONS]
@@ -259,7 +259,7 @@ def run(ctx):
                     {"cfg": cfgs[si], "density": dens, "precision": prec, "grid_size": G, "grid_index": i, "ref": n - x, "alt": x, "impl": il, "model": ml},
                 )
         # (iii) small depths: Coq model
-        if n <= 12 and G <= 7 and len(coq_items) < (200 if quick else 3000):
+        if n <= 12 and G <= 7 and len(coq_items) < (300 if quick else 3000):
             for _ in range(4):
                 si = rng.randrange(len(cfgs))
                 i = rng.randrange(G)
